@@ -331,7 +331,7 @@ CONFIG = {
         "extra_modules": ["PatVerif.Proofs.Sig", "PatVerif.Proofs.DER", "PatVerif.Proofs.ScReduce", "PatVerif.Proofs.ScMulAdd", "PatVerif.Proofs.ScScalar",
                           "PatVerif.Proofs.FeCarry", "PatVerif.Proofs.FeMul", "PatVerif.Proofs.FeMisc", "PatVerif.Proofs.FeBytes", "PatVerif.Proofs.FePow",
                           "PatVerif.Proofs.FeAbs", "PatVerif.Proofs.FeField", "PatVerif.Proofs.FeSqrt", "PatVerif.Proofs.EdPoints", "PatVerif.Proofs.EdDecode", "PatVerif.Proofs.SkelEd25519",
-                          "PatVerif.Proofs.PrimeP", "PatVerif.Proofs.FeInv", "PatVerif.Proofs.EdComplete", "PatVerif.Proofs.FeSqrtComplete", "PatVerif.Props.C14Gen"],
+                          "PatVerif.Proofs.PrimeP", "PatVerif.Proofs.FeInv", "PatVerif.Proofs.EdComplete", "PatVerif.Proofs.FeSqrtComplete", "PatVerif.Proofs.EdRefBridge", "PatVerif.Props.C14Gen"],
         "contradicts": "PatVerif.Props.C14, PatVerif.Props.C14Gen",
     },
     "C15": {
@@ -354,7 +354,7 @@ CONFIG = {
         "extra_modules": ["PatVerif.Proofs.Group", "PatVerif.Proofs.Sig", "PatVerif.Proofs.ScReduce", "PatVerif.Proofs.ScMulAdd", "PatVerif.Proofs.ScScalar",
                           "PatVerif.Proofs.FeCarry", "PatVerif.Proofs.FeMul", "PatVerif.Proofs.FeMisc", "PatVerif.Proofs.FeBytes", "PatVerif.Proofs.FePow",
                           "PatVerif.Proofs.FeAbs", "PatVerif.Proofs.FeField", "PatVerif.Proofs.FeSqrt", "PatVerif.Proofs.EdPoints", "PatVerif.Proofs.EdDecode", "PatVerif.Proofs.SkelEd25519",
-                          "PatVerif.Proofs.PrimeP", "PatVerif.Proofs.FeInv", "PatVerif.Proofs.EdComplete", "PatVerif.Proofs.FeSqrtComplete", "PatVerif.Props.C14Gen"],
+                          "PatVerif.Proofs.PrimeP", "PatVerif.Proofs.FeInv", "PatVerif.Proofs.EdComplete", "PatVerif.Proofs.FeSqrtComplete", "PatVerif.Proofs.EdRefBridge", "PatVerif.Props.C14Gen"],
         "contradicts": "PatVerif.Props.C15",
     },
     "C16": {
